@@ -2,6 +2,7 @@
 from __future__ import annotations
 
 import threading as real_threading
+import time
 import types
 
 import coqlit as L
@@ -56,6 +57,7 @@ def armed(name):
 
 DELAY_MISMATCH = []   # retry timers that were not armed with the delay configured at that moment
 TIMER_MISMATCH = []   # a reply-timeout / delay timer armed outside WAIT_CRA / WAIT_DELAY, not armed inside, or armed twice
+WAITER_MISMATCH = []  # waitfor_communicating() said "communicating" although the state never was, or stayed blocked although it is
 EARLY_REPORT = []     # communication reported (handler_communicating) before the S1F14 answering the peer's S1F13 was sent
 
 
@@ -82,6 +84,19 @@ def run_history(host, events):
             EARLY_REPORT.append({"host": host, "events": [list(e) for e in events], "what": "handler_communicating fired while the S1F14 for the peer's S1F13 had not been sent yet"})
 
     h.events.handler_communicating += on_communicating
+    comm_value = type(h.communication_state.current)["COMMUNICATING"].value
+
+    def start_waiter():
+        box = {"seen_from": max(len(states) - 1, 0)}      # the state at the time of the call counts
+        box["thread"] = real_threading.Thread(target=lambda: box.__setitem__("result", h.waitfor_communicating(60)), daemon=True)
+        box["thread"].start()
+        for _ in range(200):
+            if h._wait_event_list or "result" in box:
+                break
+            time.sleep(0.005)
+        return box
+
+    waiter = start_waiter()
     try:
         for ev in events:
             step["kind"], step["sent_before"] = ev[0], len(rig.conn.sent)
@@ -173,12 +188,24 @@ def run_history(host, events):
             coq_events.append(lit)
             outs.append(o)
             states.append(h.communication_state.current.value)
+            # the blocking way of asking "are we communicating?": True only if the state was COMMUNICATING since the call began
+            if states[-1] == comm_value:
+                waiter["thread"].join(5)
+            if "result" in waiter or states[-1] == comm_value:
+                was = comm_value in states[waiter["seen_from"]:]
+                if waiter.get("result") is not was and not WAITER_MISMATCH:
+                    WAITER_MISMATCH.append({"host": host, "events": [list(e) for e in events], "after_event": list(ev),
+                                            "waitfor_communicating_returned": waiter.get("result", "still blocked"),
+                                            "state_was_COMMUNICATING_since_the_call": was, "state_now": h.communication_state.current.name})
+                waiter = start_waiter()
     finally:
         try:
             if h.communication_state.current.value != 0:
                 h.disable()
         except Exception:  # noqa: BLE001
             pass
+        for e in list(h._wait_event_list):      # let the harness' own waiter thread go
+            e.set()
         rig.stop()
     return coq_events, outs, states
 
@@ -315,6 +342,7 @@ def run(tier, replay=None):
     del DELAY_MISMATCH[:]
     del TIMER_MISMATCH[:]
     del EARLY_REPORT[:]
+    del WAITER_MISMATCH[:]
     wedged, kept, lits = [], [], []
     for c in cases:
         lit = common.guarded(lambda c=c: case_lit(c[1], c[2]), repr(c[1:]), wedged, 20.0)
@@ -329,6 +357,8 @@ def run(tier, replay=None):
     if TIMER_MISMATCH:
         report.violation({"kind": "counterexample", "what": "the retry machinery is out of step with the state: a reply-timeout timer is armed exactly in WAIT_CRA, a delay timer exactly in WAIT_DELAY, "
                           "never two (a stale timer fires a retry at the wrong time)", **TIMER_MISMATCH[0]}, True, tag="timers")
+    if WAITER_MISMATCH:
+        report.violation({"kind": "counterexample", "what": "waitfor_communicating() does not report what the communication state says", **WAITER_MISMATCH[0]}, True, tag="waiter")
     if EARLY_REPORT:
         report.violation({"kind": "counterexample", "what": "communication was reported as established before the S1F13/S1F14 exchange was complete", **EARLY_REPORT[0], "count": len(EARLY_REPORT)}, True, tag="early")
     bad, stats = evaluate(lits, "c07")
